@@ -160,6 +160,8 @@ func (ev *SpecEnv) coerce(v Val, sort string, ty types.Type) Val {
 			return Val{T: "iface_nil", S: sortIfc, Ty: ty}
 		case sortFunc:
 			return Val{T: "func_nil", S: sortFunc, Ty: ty}
+		case sortSl:
+			return v // slice == nil is handled by the comparison itself
 		}
 		specFail("cannot use nil as %s", sort)
 	}
